@@ -425,12 +425,48 @@ func (in *inliner) inlineVoid(b *inlBody, callerFile string, call *ast.CallExpr,
 	}
 	rets := returnsOf(b.body)
 	var es []inlEdit
+	closers := 0
 	if len(rets) > 0 {
-		last := b.body.List[len(b.body.List)-1]
-		if len(rets) != 1 || ast.Stmt(rets[0]) != last || len(rets[0].Results) != 0 {
-			return false
+		// allowed: a bare return as last statement, and guard clauses at the top level of the
+		// body — `if c { …; return }` without else — which become `if c { … } else { <rest> }`
+		accounted := 0
+		for i, st := range b.body.List {
+			if rs, ok := st.(*ast.ReturnStmt); ok {
+				if i != len(b.body.List)-1 || len(rs.Results) != 0 {
+					return false
+				}
+				es = append(es, inlEdit{in.off(rs.Pos()), in.off(rs.End()), ""})
+				accounted++
+				continue
+			}
+			is, ok := st.(*ast.IfStmt)
+			if !ok {
+				continue
+			}
+			inner := returnsOf(is.Body)
+			if is.Else != nil {
+				if len(inner) > 0 || len(returnsOf(&ast.BlockStmt{List: []ast.Stmt{is.Else}})) > 0 {
+					return false
+				}
+				continue
+			}
+			if len(inner) == 0 {
+				continue
+			}
+			lastIn := is.Body.List[len(is.Body.List)-1]
+			if len(inner) != 1 || ast.Stmt(inner[0]) != lastIn || len(inner[0].Results) != 0 {
+				return false
+			}
+			es = append(es, inlEdit{in.off(lastIn.Pos()), in.off(lastIn.End()), ""})
+			if i < len(b.body.List)-1 {
+				es = append(es, inlEdit{in.off(is.End()), in.off(is.End()), " else {"})
+				closers++
+			}
+			accounted++
 		}
-		es = append(es, inlEdit{in.off(last.Pos()), in.off(last.End()), ""})
+		if accounted != len(rets) {
+			return false // a return somewhere deeper
+		}
 	}
 	pe, ok := in.paramEdits(b, callerFile, args, locals)
 	if !ok || !in.freeVarsVisible(b, call.Pos(), locals) {
@@ -446,7 +482,7 @@ func (in *inliner) inlineVoid(b *inlBody, callerFile string, call *ast.CallExpr,
 	if src == nil || lo > hi || hi > len(src) {
 		return false
 	}
-	bodyText := applyEdits(src[lo:hi], lo, es)
+	bodyText := applyEdits(src[lo:hi], lo, es) + strings.Repeat("}", closers)
 	text := fmt.Sprintf("\n//line %s:%d\n%s\n//line %s:%d\n", b.file, in.line(b.body.Lbrace), bodyText, callerFile, in.line(stmt.End()))
 	in.edits[callerFile] = append(in.edits[callerFile], inlEdit{in.off(stmt.Pos()), in.off(stmt.End()), text})
 	in.notes = append(in.notes, fmt.Sprintf("%s inlined at %s:%d", b.name, relName(in.p, callerFile), in.line(stmt.Pos())))
